@@ -19,6 +19,12 @@ test) and written to a live pipe / unix-socket / shm-pipe connection served by
   prefix (no stray bytes).
 
 A call that does not return is decided structurally (lib/c04_conn.py).
+
+Family ``headerless``: a request naming a registered header-less stream method (``prod`` / ``exch``) with generated
+perturbations, written back to back with the phase-2 input stream every client of such a method sends (tick / two
+ticks / EOS only / typed batch / a zero-row shm *pointer* batch whose region is valid, cut short, schema-only, garbage,
+or whose offset/length keys are unusable), optionally after a warm-up request that attached the client's segment and
+with an init that raises; exactly one reply stream must come back and the probe that follows gets its own answer.
 """
 
 from __future__ import annotations
